@@ -4,6 +4,7 @@ CONFIG = dict(
     harness="c16",
     suites=[
         dict(suffix="-a", comparisons=[dict(name="model", code=200, kind="eq")]),
+        dict(suffix="-a", profile="release", comparisons=[dict(name="model", code=200, kind="eq")]),
         dict(suffix="-b", comparisons=[dict(name="sinks", code=1600, kind="eq", predicate=True)]),
     ],
     trusted_base=COMMON_TB,
